@@ -27,20 +27,21 @@ Proof. exact at_neg_advertised. Qed.
 Print Assumptions C01_only_advertised_negotiable_once.
 
 (* A feature is negotiated only while the session state satisfies its declared
-   prerequisites (same exception). *)
+   prerequisites: every necessary bit set, no prohibited bit set — the forced
+   STARTTLS attempt included. *)
 Theorem C01_prerequisites_hold :
   forall c bits clear tls outs choices pre post f st o,
   trace (run c bits clear tls outs choices) = pre ++ ENeg f st o :: post ->
-  eligible f st = true \/ forced (c_feats c) (final (c_feats c) (c_ws c) (mon0 bits) pre) f st.
+  eligible f st = true.
 Proof. exact at_neg_prerequisites. Qed.
 Print Assumptions C01_prerequisites_hold.
 
-(* ... and with the masks starttls.go, sasl.go and bind.go declare (read from the
-   sources on every run) the exception satisfies the prerequisites too, and the
-   three can only run in the order STARTTLS, SASL, resource binding. *)
+(* Hence, with the masks starttls.go, sasl.go and bind.go declare (read from the
+   sources on every run), the three can only run in the order STARTTLS, SASL,
+   resource binding: SASL only when secure and not authenticated, binding only
+   when authenticated and not ready, STARTTLS only when not secure. *)
 Theorem C01_prerequisites_hold_builtin :
   forall c bits clear tls outs choices pre post f st o,
-  (forall g, find_space ns_StartTLS (c_feats c) = Some g -> f_nec g = ft_starttls_nec /\ f_proh g = ft_starttls_proh) ->
   trace (run c bits clear tls outs choices) = pre ++ ENeg f st o :: post ->
   (f_nec f = ft_sasl_nec -> f_proh f = ft_sasl_proh -> has st st_Secure = true /\ disj st st_Authn = true) /\
   (f_nec f = ft_bind_nec -> f_proh f = ft_bind_proh -> has st st_Authn = true /\ disj st st_Ready = true) /\
@@ -71,24 +72,29 @@ Theorem C01_voluntary_first :
 Proof. exact at_neg_voluntary_first. Qed.
 Print Assumptions C01_voluntary_first.
 
-(* State bits only ever get added: every Negotiate call sees the initial bits,
-   the bits seen by every earlier call and the mask of every earlier successful
-   call; so does the final state. *)
+(* State bits only ever get added, and only by successful negotiations: the
+   state a Negotiate call sees is EXACTLY the initial bits plus the masks of the
+   successful calls before it on this session ([acc_bits]); hence it contains
+   the initial bits, the bits seen by every earlier call and the mask of every
+   earlier successful call; the final state is that, plus possibly Ready. *)
 Theorem C01_bits_monotone :
   forall c bits clear tls outs choices,
   let r := run c bits clear tls outs choices in
-  (forall pre f st o post, trace r = pre ++ ENeg f st o :: post ->
-     has st bits = true /\ has (r_bits r) (after_neg st o) = true) /\
+  (forall pre post f st o, trace r = pre ++ ENeg f st o :: post ->
+     st = acc_bits bits pre /\ has st bits = true /\ has (r_bits r) (after_neg st o) = true) /\
   (forall pre f1 st1 o1 mid f2 st2 o2 post,
      trace r = pre ++ ENeg f1 st1 o1 :: mid ++ ENeg f2 st2 o2 :: post -> has st2 (after_neg st1 o1) = true) /\
-  has (r_bits r) bits = true.
+  has (r_bits r) bits = true /\
+  (r_bits r = acc_bits bits (trace r) \/ r_bits r = N.lor (acc_bits bits (trace r)) st_Ready).
 Proof.
   exact (fun c bits clear tls outs choices =>
-    conj (fun pre f st o post E =>
-            conj (neg_sees_initial_bits c bits clear tls outs choices pre f st o post E)
-                 (final_bits_contain_neg c bits clear tls outs choices pre f st o post E))
+    conj (fun pre post f st o E =>
+            conj (neg_sees_accounted c bits clear tls outs choices pre post f st o E)
+              (conj (neg_sees_initial_bits c bits clear tls outs choices pre post f st o E)
+                    (final_bits_contain_neg c bits clear tls outs choices pre post f st o E)))
          (conj (neg_sees_earlier_neg c bits clear tls outs choices)
-               (final_bits_contain_initial c bits clear tls outs choices))).
+               (conj (final_bits_contain_initial c bits clear tls outs choices)
+                     (final_bits_accounted c bits clear tls outs choices)))).
 Qed.
 Print Assumptions C01_bits_monotone.
 
@@ -155,6 +161,56 @@ Theorem C01_established_sound_partial :
   established_partial (final (c_feats c) (c_ws c) (mon0 bits) (trace r)) r.
 Proof. exact clause_established_partial. Qed.
 Print Assumptions C01_established_sound_partial.
+
+(* The same with its hypothesis read off the trace: if no successful Negotiate
+   call returned Ready in its own mask, an established session has no restart
+   pending and no eligible required feature of the last advertisement open. *)
+Theorem C01_established_sound_partial_trace :
+  forall c bits clear tls outs choices,
+  let r := run c bits clear tls outs choices in
+  let q := final (c_feats c) (c_ws c) (mon0 bits) (trace r) in
+  r_class r = ROk ->
+  has (r_bits r) st_Ready = true /\
+  (self_ready (trace r) = false -> q_need_header q = false /\ ~ pending q).
+Proof. exact established_when_no_self_ready. Qed.
+Print Assumptions C01_established_sound_partial_trace.
+
+(* The literal reading of "no eligible mandatory feature of the last
+   advertisement left un-negotiated" counts every configured feature the last
+   advertisement marked required whose prerequisites hold NOW, also one whose
+   prerequisites did not hold when it was advertised (it never entered the
+   cache).  It implies the cache reading ... *)
+Theorem C01_pending_cache_implies_literal :
+  forall fs ws bits tr, let q := final fs ws (mon0 bits) tr in pending q -> pending_adv q.
+Proof. exact pending_is_pending_adv. Qed.
+Print Assumptions C01_pending_cache_implies_literal.
+
+(* ... and is false of the code even when no feature reports Ready itself ... *)
+Definition C01_established_literal_statement : Prop := established_literal_statement.
+
+Theorem C01_established_literal_refuted : ~ C01_established_literal_statement.
+Proof. exact established_literal_false. Qed.
+Print Assumptions C01_established_literal_refuted.
+
+Theorem C01_established_literal_refuted_witness :
+  exists c bits clear tls outs choices,
+    let r := run c bits clear tls outs choices in
+    let q := final (c_feats c) (c_ws c) (mon0 bits) (trace r) in
+    r_class r = ROk /\ self_ready (trace r) = false /\ pending_adv q.
+Proof. exact established_literal_refuted. Qed.
+Print Assumptions C01_established_literal_refuted_witness.
+
+(* ... what holds: such a feature was not an entry of the cache (not eligible
+   when it was advertised, or replaced by a later child of the same name space). *)
+Theorem C01_established_literal_partial :
+  forall c bits clear tls outs choices,
+  let r := run c bits clear tls outs choices in
+  let q := final (c_feats c) (c_ws c) (mon0 bits) (trace r) in
+  r_class r = ROk -> self_ready (trace r) = false ->
+  q_need_header q = false /\
+  forall g, In g (q_advreq q) -> cand (q_negd q) (q_last q) (true, g) = true -> ~ In (true, g) (q_cache q).
+Proof. exact established_literal_partial. Qed.
+Print Assumptions C01_established_literal_partial.
 
 (* The receiving side advertises exactly the configured features whose
    prerequisites hold, in configuration order. *)
